@@ -82,7 +82,7 @@ func ruleD3(c *an.Ctx, fns []*ssa.Function, cfg *an.OrderConfig) {
 		})
 	}
 	c.Note("D3: sort sites over pointer keys collected from maps: %d", len(sites))
-	c.Floor("D3", "comparator sorts of pointer keys collected from a map", len(sites), 2)
+	c.Floor("D3", "comparator sorts of pointer keys collected from a map", len(sites), 1)
 	for i, s := range sites {
 		var weakerThan *sortSite
 		for j := range sites {
